@@ -15,6 +15,7 @@
  */
 
 #include <unifex/v1/async_mutex.hpp>
+#include <unifex/detail/verif_hooks.hpp>
 
 namespace unifex {
 inline namespace v1 {
@@ -38,6 +39,7 @@ void async_mutex::unlock() noexcept {
     pendingQueue_ = std::move(newWaiters);
   }
 
+  UNIFEX_VERIF_YIELD("mutex.v1.resume");
   waiter_base* item = pendingQueue_.pop_front();
   item->resume_(item);
 }
